@@ -919,3 +919,35 @@ def final_player_game(rng):
     xtl += [order, [(hi, win), (1 - hi, lose)], [(lo, win), (1 - lo, lose)], [(Fr(1), lose)], [(Fr(1), win)]]
     finals = [win, s] if rng.random() < 0.5 else [s, win]
     return finish(rewards, players, xtl, finals, {"family": "final_player"})
+
+
+ODD_LABELS = ["{north}", "turn{90}", "{", "}", "{0}", "{}", "%s", "%(x)s", "100%", "a\\b", "it's", 'say "x"', "a\nb", "a,b", "[x]", "$HOME", "\u00e9t\u00e9"]
+
+
+def with_odd_labels(g, rng):
+    """the same game with its action names consistently (injectively) replaced by legal strings that contain
+    format / template / quoting characters"""
+    names = sorted({a for pl, row in zip(g["players"], g["transition_list"]) if pl != PR for a, _ in row})
+    pool = list(ODD_LABELS)
+    rng.shuffle(pool)
+    if len(names) > len(pool):
+        pool += [f"{{k{i}}}" for i in range(len(names) - len(pool))]
+    m = dict(zip(names, pool))
+    xt = [[((m[l] if isinstance(l, str) else l), t_) for l, t_ in row] for row in exact_tl(g)]
+    return finish(g["rewards"], g["players"], xt, g["final_states"], dict(g.get("_meta", {}), odd_labels=True)), m
+
+
+def decimal_tie_game(rng, kind=None):
+    """successor values that are equal (or one unit in the last place apart) but sit on different sides of a
+    6-digit boundary for a rounding mode other than half-even: 0.3 vs 0.1+0.2, 1/128 vs its predecessor"""
+    import math
+    kind = kind or rng.choice([P1, P2])
+    lose, win = 3, 4
+    if rng.random() < 0.5:
+        rows = [[(Fr(3, 10), win), (Fr(7, 10), lose)], [(Fr(1, 10), win), (Fr(2, 10), win), (Fr(7, 10), lose)]]
+    else:
+        a = Fr(1, 128)
+        b = Fr(math.nextafter(1 / 128, 0))
+        rows = [[(a, win), (1 - a, lose)], [(b, win), (1 - b, lose)]]
+    xtl = [[("a", 1), ("b", 2)]] + rows + [[(Fr(1), lose)], [(Fr(1), win)]]
+    return finish([0] * 5, [kind, PR, PR, PR, PR], xtl, [win], {"family": "decimal_tie"})
